@@ -11,7 +11,9 @@ import Pcore.Model.Object
                                                           finding C17-type-inithash-constant-undef)
     types/objecttype.go      objectType.initHash        → `typeDef` (attributes divided into `constants` — kind constant and
                                                           declared type = `Generalize(value.PType())` — and the others,
-                                                          each group in declaration order; `equality` always as an array;
+                                                          each group in declaration order; `type_parameters` as declared
+                                                          (typeParameter.initHash strips the `Optional`); `equality`
+                                                          always as an array;
                                                           `equality_include_type` only when false; `serialization`)
   Core-only file (linked into the driver).
 -/
@@ -49,7 +51,8 @@ def typeDef (parent : Option Nat) (l : Level) : Def :=
       | none => .absent
       | some e => .many e,
     includeType := if l.includeType then none else some false,
-    serialization := l.serialization }
+    serialization := l.serialization,
+    params := l.params }
 
 /-- the own attributes of the re-created level: `attributes` first, then `constants` -/
 def reorder (as : List Attr) : List Attr := as.filter (fun a => !a.constLike) ++ as.filter Attr.constLike
